@@ -171,39 +171,7 @@ func runC17(e *Env) error {
 				Broken: "theorem C17_propagates (loader causes; implementation-only oracle)", Replay: map[string]any{"kind": "flaky-loader", "err": fmt.Sprint(res.Err)}})
 		}
 	}
-	// relative names (./x, ../x): a parent / partial / library that EXISTS at the resolved place but fails to load or to
-	// parse is an error with its cause — never replaced by a same-named template at the loader root
-	for _, rel := range []struct{ name, page string }{
-		{"extends", "{% extends './layout.twig' %}{% block c %}home{% endblock %}"},
-		{"include", "a{% include './layout.twig' %}b"},
-		{"include-ignore-missing", "a{% include './layout.twig' ignore missing %}b"},
-		{"import", "{% import './layout.twig' as l %}x"},
-		{"from", "{% from './layout.twig' import m %}x"},
-		{"extends-up", "{% extends '../dir/layout.twig' %}{% block c %}home{% endblock %}"},
-	} {
-		for _, failure := range []string{"syntax", "loader"} {
-			src := map[string]string{"dir/page.twig": rel.page, "layout.twig": "ROOT[{% block c %}{% endblock %}]{% macro m() %}rootm{% endmacro %}"}
-			failing := "-"
-			if failure == "syntax" {
-				src["dir/layout.twig"] = "broken {% if %}{{ "
-			} else {
-				failing = "dir/layout.twig"
-			}
-			res := guarded(func() (string, error) {
-				eng := twig.New()
-				eng.RegisterLoader(&sentinelLoader{name: failing, err: sentinel, src: src})
-				return eng.Render("dir/page.twig", nil)
-			})
-			r.Seen("relative:"+rel.name+":"+failure, true)
-			r.Hit("relative-name-failure")
-			bad := res.Err == nil || res.Out != "" || (failure == "loader" && !errors.Is(res.Err, sentinel)) || (failure == "syntax" && res.Class != "parse-error")
-			if bad {
-				r.Violate(Violation{Key: "relative-parent-failure-replaced", What: fmt.Sprintf("%s of './layout.twig' from dir/page.twig where dir/layout.twig exists but fails (%s): output %q, error %v (%s)", rel.name, failure, res.Out, res.Err, res.Class),
-					Broken: "theorem C17_propagates (relative names are outside the model; implementation-only oracle with a custom loader)",
-					Replay: map[string]any{"kind": "loader", "page": rel.page, "failure": failure, "out": res.Out, "err": fmt.Sprint(res.Err), "class": res.Class}})
-			}
-		}
-	}
+	relativeFailureOracle(e, "relative-parent-failure-replaced", "theorem C17_propagates (relative names are outside the model; implementation-only oracle with a custom loader)")
 	// recorded finding: `<failing expression>.attr is defined` swallows the failure
 	{
 		c := &Case{Templates: map[string]string{"main": "{% import 'lib' as lib %}{{ lib.spyfn().y is defined }}", "lib": "{% macro ok() %}ok{% endmacro %}"},
@@ -273,4 +241,43 @@ func runC17(e *Env) error {
 		}
 	}
 	return nil
+}
+
+// relativeFailureOracle: see the comment at its first statement; shared by C11 and C17.
+func relativeFailureOracle(e *Env, key, broken string) {
+	r := e.Rep
+	sentinel := errors.New("disk on fire")
+	// relative names (./x, ../x): a parent / partial / library that EXISTS at the resolved place but fails to load or to
+	// parse is an error with its cause — never replaced by a same-named template at the loader root
+	for _, rel := range []struct{ name, page string }{
+		{"extends", "{% extends './layout.twig' %}{% block c %}home{% endblock %}"},
+		{"include", "a{% include './layout.twig' %}b"},
+		{"include-ignore-missing", "a{% include './layout.twig' ignore missing %}b"},
+		{"import", "{% import './layout.twig' as l %}x"},
+		{"from", "{% from './layout.twig' import m %}x"},
+		{"extends-up", "{% extends '../dir/layout.twig' %}{% block c %}home{% endblock %}"},
+	} {
+		for _, failure := range []string{"syntax", "loader"} {
+			src := map[string]string{"dir/page.twig": rel.page, "layout.twig": "ROOT[{% block c %}{% endblock %}]{% macro m() %}rootm{% endmacro %}"}
+			failing := "-"
+			if failure == "syntax" {
+				src["dir/layout.twig"] = "broken {% if %}{{ "
+			} else {
+				failing = "dir/layout.twig"
+			}
+			res := guarded(func() (string, error) {
+				eng := twig.New()
+				eng.RegisterLoader(&sentinelLoader{name: failing, err: sentinel, src: src})
+				return eng.Render("dir/page.twig", nil)
+			})
+			r.Seen("relative:"+rel.name+":"+failure, true)
+			r.Hit("relative-name-failure")
+			bad := res.Err == nil || res.Out != "" || (failure == "loader" && !errors.Is(res.Err, sentinel)) || (failure == "syntax" && res.Class != "parse-error")
+			if bad {
+				r.Violate(Violation{Key: key, What: fmt.Sprintf("%s of './layout.twig' from dir/page.twig where dir/layout.twig exists but fails (%s): output %q, error %v (%s)", rel.name, failure, res.Out, res.Err, res.Class),
+					Broken: broken,
+					Replay: map[string]any{"kind": "loader", "page": rel.page, "failure": failure, "out": res.Out, "err": fmt.Sprint(res.Err), "class": res.Class}})
+			}
+		}
+	}
 }
